@@ -62,6 +62,7 @@ type stageRes struct {
 	NoRepo bool   `json:"norepo,omitempty"`
 	Tag    string `json:"tag,omitempty"` // reference-model prediction attached to this (input, stage)
 	Us     int64  `json:"us,omitempty"`
+	Died   bool   `json:"died,omitempty"` // the process died in this stage (set by the parent)
 }
 
 type childMsg struct {
